@@ -56,11 +56,11 @@ theorem gen_bind_object_keys :
 
 /-- The model's `TokenType()` / `Value()` are these tables. -/
 theorem model_value_table (s t : Str) (i : Int) (b : Bool) :
-    (Value.identifier s).bound = ⟨.IDENT, s⟩ ∧ (Value.string s).bound = ⟨.STRING, s⟩ ∧
-    (Value.regex s).bound = ⟨.REGEX, s⟩ ∧ (Value.number t).bound = ⟨.NUMBER, t⟩ ∧
-    (Value.integer i).bound = ⟨.INTEGER, intDigits i⟩ ∧
-    (Value.boolean b).bound = ⟨if b then .TRUE else .FALSE, []⟩ ∧
-    (Value.duration s).bound = ⟨.DURATIONVAL, s⟩ ∧ (Value.error s).bound = ⟨.BOUNDPARAM, s⟩ :=
+    (ParamValue.identifier s).bound = ⟨.IDENT, s⟩ ∧ (ParamValue.string s).bound = ⟨.STRING, s⟩ ∧
+    (ParamValue.regex s).bound = ⟨.REGEX, s⟩ ∧ (ParamValue.number t).bound = ⟨.NUMBER, t⟩ ∧
+    (ParamValue.integer i).bound = ⟨.INTEGER, intDigits i⟩ ∧
+    (ParamValue.boolean b).bound = ⟨if b then .TRUE else .FALSE, []⟩ ∧
+    (ParamValue.duration s).bound = ⟨.DURATIONVAL, s⟩ ∧ (ParamValue.error s).bound = ⟨.BOUNDPARAM, s⟩ :=
   ⟨rfl, rfl, rfl, rfl, rfl, rfl, rfl, rfl⟩
 
 /-! ## `$name` lexes once -/
@@ -102,7 +102,7 @@ look-ahead of `parseRegex` — delivers the same substituted token again and res
 substitution is a function of the buffered raw token, applied on every delivery. -/
 theorem subst_redelivery (regex regex' : Bool) (s : PState) :
     (do unscan; pscanWith regex').run (rawNext regex s).2 = (pscanWith regex).run s := by
-  rw [P.run_bind, unscan_run]
+  rw [P.runBind, unscan_run_eq]
   exact pscan_unscan_pscan regex regex' s
 
 /-! ## The bind table -/
@@ -127,7 +127,7 @@ theorem bindValue_table (s t ft : Str) (i : Int) (b : Bool) :
     (bindValue (.object "duration".toList (.str s))).bound = ⟨.DURATIONVAL, s⟩ ∧
     (bindValue (.object "duration".toList (.int i ft))).bound = ⟨.DURATIONVAL, formatDuration i⟩ := by
   refine ⟨rfl, rfl, rfl, rfl, ?_, ?_, ?_, ?_, ?_, ?_, ?_, ?_, ?_, ?_, ?_, ?_⟩ <;>
-    simp [bindValue, bindObjectValue, convertJsonNumber, Value.bound, Value.tokenType, Value.text] <;> decide
+    simp [bindValue, bindObjectValue, convertJsonNumber, ParamValue.bound, ParamValue.tokenType, ParamValue.text] <;> decide
 
 /-- A `json.Number` is first converted: with a `.` in its text through `Float64()`, otherwise
 through `Int64()`; a conversion error is an `ErrorValue` with the `strconv` message. -/
@@ -171,22 +171,22 @@ def Bindable : GoVal → Bool
 return an `ErrorValue`, i.e. iff its token kind is not BOUNDPARAM. -/
 theorem bindValue_error_iff (v : GoVal) : (bindValue v).tokenType = .BOUNDPARAM ↔ Bindable v = false := by
   cases v with
-  | float t => simp [bindValue, convertJsonNumber, Value.tokenType, Bindable]
-  | int i ft => simp [bindValue, convertJsonNumber, Value.tokenType, Bindable]
-  | str s => simp [bindValue, convertJsonNumber, Value.tokenType, Bindable]
-  | bool b => cases b <;> simp [bindValue, convertJsonNumber, Value.tokenType, Bindable]
+  | float t => simp [bindValue, convertJsonNumber, ParamValue.tokenType, Bindable]
+  | int i ft => simp [bindValue, convertJsonNumber, ParamValue.tokenType, Bindable]
+  | str s => simp [bindValue, convertJsonNumber, ParamValue.tokenType, Bindable]
+  | bool b => cases b <;> simp [bindValue, convertJsonNumber, ParamValue.tokenType, Bindable]
   | jsonNumber text asFloat asInt =>
     rw [bindValue_jsonNumber]
     show _ ↔ (if containsDot text = true then asFloat.toBool else asInt.toBool) = false
     by_cases hd : containsDot text = true
     · rw [if_pos hd, if_pos hd]
-      cases asFloat <;> simp [Value.tokenType, Except.toBool]
+      cases asFloat <;> simp [ParamValue.tokenType, Except.toBool]
     · rw [if_neg hd, if_neg hd]
       cases asInt with
-      | error e => simp [Value.tokenType, Except.toBool]
-      | ok p => obtain ⟨i, ft⟩ := p; simp [Value.tokenType, Except.toBool]
-  | objectN => simp [bindValue, convertJsonNumber, Value.tokenType, Bindable]
-  | other t => simp [bindValue, convertJsonNumber, Value.tokenType, Bindable]
+      | error e => simp [ParamValue.tokenType, Except.toBool]
+      | ok p => obtain ⟨i, ft⟩ := p; simp [ParamValue.tokenType, Except.toBool]
+  | objectN => simp [bindValue, convertJsonNumber, ParamValue.tokenType, Bindable]
+  | other t => simp [bindValue, convertJsonNumber, ParamValue.tokenType, Bindable]
   | object k x =>
     have hb : bindValue (.object k x) = bindObjectValue k x := rfl
     rw [hb]
@@ -204,7 +204,7 @@ theorem bindValue_error_iff (v : GoVal) : (bindValue v).tokenType = .BOUNDPARAM 
         else false) = false
     unfold bindObjectValue
     cases hx : convertJsonNumber x with
-    | error e => simp [Value.tokenType]
+    | error e => simp [ParamValue.tokenType]
     | ok y =>
       simp only
       by_cases h1 : k = "ident".toList ∨ k = "identifier".toList
@@ -213,19 +213,19 @@ theorem bindValue_error_iff (v : GoVal) : (bindValue v).tokenType = .BOUNDPARAM 
           · exact Or.inl h
           · exact Or.inr (Or.inl h)
         rw [if_pos h1, if_pos h1']
-        cases y <;> simp [Value.tokenType]
+        cases y <;> simp [ParamValue.tokenType]
       rw [if_neg h1]
       by_cases h2 : k = "regex".toList
       · have h2' : k = "ident".toList ∨ k = "identifier".toList ∨ k = "regex".toList ∨ k = "string".toList :=
           Or.inr (Or.inr (Or.inl h2))
         rw [if_pos h2, if_pos h2']
-        cases y <;> simp [Value.tokenType]
+        cases y <;> simp [ParamValue.tokenType]
       rw [if_neg h2]
       by_cases h3 : k = "string".toList
       · have h3' : k = "ident".toList ∨ k = "identifier".toList ∨ k = "regex".toList ∨ k = "string".toList :=
           Or.inr (Or.inr (Or.inr h3))
         rw [if_pos h3, if_pos h3']
-        cases y <;> simp [Value.tokenType]
+        cases y <;> simp [ParamValue.tokenType]
       rw [if_neg h3]
       have h0 : ¬ (k = "ident".toList ∨ k = "identifier".toList ∨ k = "regex".toList ∨ k = "string".toList) := by
         rintro (h | h | h | h)
@@ -236,17 +236,17 @@ theorem bindValue_error_iff (v : GoVal) : (bindValue v).tokenType = .BOUNDPARAM 
       rw [if_neg h0]
       by_cases h4 : k = "float".toList ∨ k = "number".toList
       · rw [if_pos h4, if_pos h4]
-        cases y <;> simp [Value.tokenType]
+        cases y <;> simp [ParamValue.tokenType]
       rw [if_neg h4, if_neg h4]
       by_cases h5 : k = "int".toList ∨ k = "integer".toList
       · rw [if_pos h5, if_pos h5]
-        cases y <;> simp [Value.tokenType]
+        cases y <;> simp [ParamValue.tokenType]
       rw [if_neg h5, if_neg h5]
       by_cases h6 : k = "duration".toList
       · rw [if_pos h6, if_pos h6]
-        cases y <;> simp [Value.tokenType]
+        cases y <;> simp [ParamValue.tokenType]
       rw [if_neg h6, if_neg h6]
-      simp [Value.tokenType]
+      simp [ParamValue.tokenType]
 
 /-- **C07 (unbindable, unbound and empty parameters are errors).** If the token delivered to
 `parseUnaryExpr` is still BOUNDPARAM — the name is empty (`$`), or not bound, or bound to an
